@@ -241,6 +241,14 @@ func c14(e *Env) {
 	if w.Stopped() {
 		return
 	}
+	// "still connected" is the client's decision: a client that did not leave must not have been
+	// disconnected by the proxy (it sends only well-formed frames)
+	for _, cc := range cls {
+		if !cc.cl.Gone && !cc.cl.Connected() {
+			w.Violate("c14-connection", "client-connection-closed-by-proxy", fmt.Sprintf("%s (%s) did not disconnect, but the proxy closed its connection (events received so far: %d)", cc.cl, cc.cl.Version, len(cc.got)))
+			return
+		}
+	}
 	must, may := 0, 0
 	for _, ev := range events {
 		ev.arrived = !ev.conn.Link.IsReset() && ev.conn.Link.ConsumedBySUT() >= ev.endOff || ev.conn.Link.ConsumedBySUT() >= ev.endOff
@@ -275,4 +283,6 @@ func c14(e *Env) {
 	}
 }
 
-func encodeRef(compression string, frm *frame.Frame) []byte { return world.EncodeFrame(compression, frm) }
+func encodeRef(compression string, frm *frame.Frame) []byte {
+	return world.EncodeFrame(compression, frm)
+}
